@@ -37,9 +37,51 @@ def deep_sources(fn, operand, depth=0, seen=None):
     return out
 
 
+_PRED_CACHE = {}
+
+
+def consuming_predicates(F):
+    """parser helpers that report with `true` (or Some) exactly when they consumed: functions of parser.rs returning bool whose every
+    `true` result is confined to the positive edge of match_and_consume (or of another such helper).  {path: True}"""
+    key = id(F)
+    if key in _PRED_CACHE:
+        return _PRED_CACHE[key]
+    from .guards import _dominated_by_edge
+    out = {}
+    for _ in range(2):
+        for fn in F.all_fns(tests=False):
+            if fn.kind == "closure" or not fn.file.endswith("frontend/parser.rs") or not fn.mir or fn.path in out:
+                continue
+            if F.ty(fn.d["ret"]).s != "bool":
+                continue
+            trues = [bi for bi, si, st in fn.assigns() if st["pl"]["l"] == 0 and (st["rv"].get("use", {}).get("const") or {}).get("int") in ("1", 1, "true")]
+            others = [bi for bi, si, st in fn.assigns() if st["pl"]["l"] == 0 and not (st["rv"].get("use", {}).get("const") or {})]
+            if not trues or others:
+                continue
+            ok = True
+            for tb in trues:
+                confined = False
+                for cb, ct in fn.calls():
+                    d = callee_def(ct) or ""
+                    if d != PARSER + "match_and_consume" and d not in out:
+                        continue
+                    for sb in range(len(fn.blocks)):
+                        sw = tables.arms_complete(fn, sb)
+                        if sw and "Some" in sw[2] and cb in deep_sources(fn, {"copy": {"l": sw[0]["l"], "p": []}}):
+                            if sw[2]["Some"] == tb or _dominated_by_edge(fn, tb, sb, sw[2]["Some"]):
+                                confined = True
+                if not confined:
+                    ok = False
+            if ok:
+                out[fn.path] = True
+    _PRED_CACHE[key] = out
+    return out
+
+
 def loop_pivots(F, fn):
     """for every non-trivial SCC of fn: (scc, pivot block or None, text)"""
     res = []
+    preds = consuming_predicates(F)
     for scc in fn.sccs():
         cands = []
         for b in sorted(scc):
@@ -48,7 +90,7 @@ def loop_pivots(F, fn):
                 continue
             d = callee_def(t) or ""
             r = t["callee"].get("resolved") or d
-            if d in CONSUMING_OPTION or r in CONSUMING_OPTION or d in CONSUMING_ALWAYS or d in STATEMENT_BLOCKS:
+            if d in CONSUMING_OPTION or r in CONSUMING_OPTION or d in CONSUMING_ALWAYS or d in STATEMENT_BLOCKS or d in preds:
                 cands.append(b)
             elif d == "itertools::Itertools::take_while_ref" or d.endswith("take_while_ref"):
                 cands.append(b)
